@@ -61,6 +61,10 @@ func (m *PubackMessage) Decode(src []byte) (int, error) {
 		return total, err
 	}
 
+	if m.remlen != 2 {
+		return total, fmt.Errorf("puback/Decode: Invalid remaining length %d. Expecting %d", m.remlen, 2)
+	}
+
 	//this.packetId = binary.BigEndian.Uint16(src[total:])
 	m.packetID = src[total : total+2]
 	total += 2
